@@ -29,7 +29,11 @@ RULE = (
     "(a child, parent or candidate closes by EOF or reset), reset (server sends ResetDistributed: the client closes "
     "children and parent; optionally the close of one child connection is confirmed only after 0.2 / 1.5 / 5.5 s, "
     "as for a peer that does not drain its socket, and 0..2 new peers connect with type D while the client is "
-    "still awaiting that close: they are accepted and are current children afterwards), and search requests (carrier ServerSearchRequest from the server while there is no "
+    "still awaiting that close: they are accepted and are current children afterwards), setname (the application "
+    "assigns settings.credentials.username = an asker's / tree member's / unknown / new / the own name while the "
+    "session stays active: the logged-in user, and with it 'own', does not change), damage (after the scan a "
+    "shared file is deleted, or the sub-directory holding it is replaced by a plain file so that reading its size "
+    "fails with NotADirectoryError; no rescan), and search requests (carrier ServerSearchRequest from the server while there is no "
     "parent, DistributedSearchRequest or legacy DistributedServerSearchRequest from the parent otherwise; user in "
     "{friend asker, stranger asker, tree member, own username, user unknown to the server}; arbitrary uint32 "
     "ticket; query of 1..3 terms: present/absent words, -exclude, *wildcard, upper case, word prefixes), optionally "
@@ -66,6 +70,12 @@ ASSUMPTIONS = [
     "joins of peers that were never listed as potential parents are generated, requests resume after it; at most "
     "12 s of such windows per case",
     "the 'unknown' field of forwarded requests and result order are not compared",
+    "'the logged-in user' / 'the own username' is the name of the active session (the name the client logged in "
+    "with), not the current value of settings.credentials.username",
+    "a matching file that became unreadable after the scan is omitted from the reply and the other matches are "
+    "sent (docstring of shares.utils.convert_items_to_file_data: 'If an exception occurs when converting the item "
+    "an error will be logged and the item will be omitted from the list'); when every match of a request is "
+    "unreadable both no reply and one reply without files are accepted",
 ]
 BUDGET_S = {'quick': 150, 'thorough': 1500}
 
@@ -82,7 +92,9 @@ SUBDIRS = ['', 'live', os.path.join('live', '2020')]
 SEPS = [' ', '_', ' - ']
 EXTS = ['.mp3', '.flac', '.txt']
 QUIET = 0.5
-MAX_OPS = 14
+MAX_OPS = 16
+# values the application assigns to settings.credentials.username while the session of OWN stays active
+NAMES = ['alice', 'bob', 't0', 't1', 'ghost', 'me2', OWN]
 SLOW_CLOSE = [0.0, 0.2, 1.5, 5.5]      # seconds until a closing child connection is confirmed closed (5.5 > DISCONNECT_TIMEOUT)
 SLOW_BUDGET = 12.0                     # total virtual seconds of slow closes per case (peer read timeout is 60 s)
 
@@ -135,6 +147,9 @@ def _change():
         st.fixed_dictionaries({'op': st.just('announce'), 'which': st.integers(0, 3), 'form': st.sampled_from([0, 0, 1, 2, 3, 4]),
                                'level': st.integers(1, 4), 'root': st.integers(0, 2)}),
         _reset(),
+        st.fixed_dictionaries({'op': st.just('setname'), 'name': st.integers(0, len(NAMES) - 1)}),
+        st.fixed_dictionaries({'op': st.just('damage'), 'file': st.integers(0, 5),
+                               'how': st.sampled_from(['delete', 'dirfile', 'dirfile'])}),
     )
 
 
@@ -175,10 +190,31 @@ def case_strategy(draw, avoid_own=False):
         ops.append(draw(_search(avoid_own)))
         if draw(st.booleans()):
             ops.append(draw(_search(avoid_own)))
-        if draw(st.integers(0, 3)) == 0:
+        motif = draw(st.integers(0, 7))
+        if motif <= 1:
             # a child joins while a reset still waits for a slowly closing child, then a request
             ops.append({'op': 'reset', 'slow': draw(st.sampled_from([1, 2, 2, 3])), 'stall': draw(st.integers(0, 3)),
                         'join': draw(st.lists(st.integers(0, 4), min_size=1, max_size=2))})
+        elif motif == 2:
+            # the application assigns another user name to the settings while the session stays active; then a
+            # request of the logged-in user or of the user with the newly configured name
+            name = draw(st.integers(0, len(NAMES) - 2))
+            ops.append({'op': 'setname', 'name': name})
+            nxt = draw(_search(avoid_own))
+            users = ([] if avoid_own else [USERS.index(OWN)]) + ([USERS.index(NAMES[name])] if NAMES[name] in USERS else [])
+            if users:
+                nxt['user'] = draw(st.sampled_from(users))
+            ops.append(nxt)
+        elif motif == 3:
+            # a matching file becomes unreadable after the scan (its directory is replaced by a plain file, or it
+            # is deleted), then a request for one of its words
+            fi = draw(st.integers(0, len(files) - 1))
+            ops.append({'op': 'damage', 'file': fi, 'how': draw(st.sampled_from(['dirfile', 'dirfile', 'delete']))})
+            nxt = draw(_search(avoid_own))
+            first = sum(len(f['w']) for f in files[:fi])
+            nxt['q'] = [{'w': first + draw(st.integers(0, len(files[fi]['w']) - 1)), 'p': True, 'm': 0}]
+            nxt['user'] = draw(st.sampled_from([0, 1, 1, 2]))
+            ops.append(nxt)
         else:
             ops += draw(st.lists(_change(), min_size=0, max_size=2))
     ops.append(draw(_search(avoid_own)))
@@ -248,6 +284,11 @@ def _sanitise_inner(case):
         elif kind == 'announce':
             ops.append({'op': 'announce', 'which': _int(o.get('which'), 0, 10 ** 6), 'form': _int(o.get('form'), 0, 4),
                         'level': _int(o.get('level'), 1, 50, 1), 'root': _int(o.get('root'), 0, 10 ** 6) % len(ROOTS)})
+        elif kind == 'setname':
+            ops.append({'op': 'setname', 'name': _int(o.get('name'), 0, 10 ** 6) % len(NAMES)})
+        elif kind == 'damage':
+            ops.append({'op': 'damage', 'file': _int(o.get('file'), 0, 10 ** 6),
+                        'how': 'dirfile' if o.get('how') == 'dirfile' else 'delete'})
         elif kind == 'reset':
             ops.append({'op': 'reset', 'slow': _int(o.get('slow'), 0, len(SLOW_CLOSE) - 1),
                         'stall': _int(o.get('stall'), 0, 10 ** 6),
@@ -399,6 +440,7 @@ def run_case(case) -> CaseResult:
             state = {'parent': None}
             reply_seen = {}
             slow_left = [SLOW_BUDGET]
+            damaged = set()      # absolute paths that became unreadable after the scan
 
             def open_conn_of(name):
                 return [k for k in conns if k.peer == name and k.open]
@@ -480,7 +522,11 @@ def run_case(case) -> CaseResult:
                         found = []
                         notes.append('query-raised:' + type(exc).__name__)
                     vis, lck = [], []
+                    r['damaged'] = 0
                     for remote, absolute in found:
+                        if absolute in damaged:
+                            r['damaged'] += 1      # documented: an item that cannot be converted is omitted
+                            continue
                         entry = (remote, sizes.get(absolute, -1))
                         in_friends = absolute.startswith(fri + os.sep)
                         (lck if in_friends and r['user'] not in friends else vis).append(entry)
@@ -619,6 +665,27 @@ def run_case(case) -> CaseResult:
                                         else M.DistributedBranchRoot.Request(val))
                     model_announce(k, msgs)
                     await quiet()
+                elif kind == 'setname':
+                    # run-time change of a setting; the session (user OWN) stays as it is
+                    client.settings.credentials.username = NAMES[o['name']]
+                    if NAMES[o['name']] != OWN:
+                        notes.append('configured-username-differs-from-session-user')
+                    await asyncio.sleep(0.01)
+                elif kind == 'damage':
+                    f = c['files'][o['file'] % len(c['files'])]
+                    path = os.path.join(tmp, _file_relpath(f))
+                    if o['how'] == 'dirfile' and f['s'] > 0:
+                        d = os.path.dirname(path)
+                        if os.path.isdir(d):
+                            shutil.rmtree(d)
+                            with open(d, 'wb'):
+                                pass
+                            damaged.update(p for p in sizes if p.startswith(d + os.sep))
+                            notes.append('damage:directory-replaced-by-file')
+                    elif os.path.isfile(path):
+                        os.remove(path)
+                        damaged.add(path)
+                        notes.append('damage:file-deleted')
                 elif kind == 'reset':
                     kids = [k for k in conns if k.role == 'child']
                     delay = SLOW_CLOSE[o.get('slow', 0)]
@@ -766,6 +833,9 @@ def _evaluate(res, groups, notes, loop_errors):
             for r in reqs:
                 if r['user'] == name and name != OWN and (r['visible'] or r['locked']):
                     expected.append((OWN, r['ticket'], r['visible'], r['locked'], r['carrier']))
+            # every match became unreadable after the scan: the reply is not specified (none, or one without files)
+            optional = [r['ticket'] for r in reqs if r['user'] == name and name != OWN and r['damaged'] and
+                        not r['visible'] and not r['locked']]
             matched = []
             rest_a = []
             rest_e = list(expected)
@@ -791,6 +861,10 @@ def _evaluate(res, groups, notes, loop_errors):
                                     f"{name} received results={a[2]} locked={a[3]}, expected results={e[2]} "
                                     f"locked={e[3]}; {ctx}")
                     continue
+                if a[0] == OWN and a[1] in optional and not a[2] and not a[3]:
+                    optional.remove(a[1])
+                    res.label('empty-reply-all-matches-unreadable')
+                    continue
                 carrier = next((r['carrier'] for r in reqs if r['ticket'] == a[1]), carrier0)
                 if any(e[:4] == a for e in matched):
                     res.violate(f"C14/reply-more-than-once:{carrier}", f"{name} received again {a!r:.300}; {ctx}")
@@ -809,6 +883,8 @@ def _evaluate(res, groups, notes, loop_errors):
             rcls = ('visible+locked' if r['visible'] and r['locked'] else 'visible' if r['visible']
                     else 'locked' if r['locked'] else 'none')
             res.label('carrier:' + r['carrier'], 'user:' + ucls, 'result:' + rcls, 'children:%d' % nkids)
+            if r['damaged']:
+                res.label('unreadable-match:' + ('with-readable-match' if r['visible'] or r['locked'] else 'only'))
             if nkids and (r['visible'] or r['locked']):
                 nontrivial_keys.append([nkids, bool(g['shape']['parent']), bool(g['shape']['candidates']),
                                         bool(g['shape']['closed']), r['carrier'], ucls, rcls])
